@@ -103,6 +103,14 @@ def _():
     m = PM(create_nested_marker("python_version", C("^3")))
     return m.validate({"python_version": "3.9", "python_full_version": "3.9.1"})
 
+@w("D27")
+def _():
+    env = {"platform_version": "#1 SMP Debian 5.10.46-4 (2021-08-03)", "sys_platform": "linux"}
+    a = PM('platform_version != "1" and sys_platform == "linux"').validate(env)
+    b = PM('"SMP" in platform_version').validate(env)
+    c = PM('platform_version == "a"').validate({"platform_version": "a,b"})
+    return a and b and not c
+
 if __name__ == "__main__":
     ids = sys.argv[1:] or list(W)
     bad = 0
